@@ -80,7 +80,9 @@ func (self *Interpreter) callFunc(span errors.Span, val value.Value, args []ast.
 			if i != nil {
 				return nil, i
 			}
-			argsOut[arg.Name] = argVal
+			// the parameter gets its own cell: assigning it inside the closure must not change the caller's variable
+			argCell := *argVal
+			argsOut[arg.Name] = &argCell
 		}
 
 		// push a scope into the closure
